@@ -133,6 +133,9 @@ class C08(Prop):
 
         self.dev.responder = responder
         from aioswitcher.device import DeviceType
+        from ..ref import clock
+
+        clock.set_zone(env.ZONES[i % len(env.ZONES)])   # durations are durations: the host zone must not matter
 
         c1 = await self.rig.connect(self.dev, 1, gen.device_id(r), gen.device_key(r))
         c2 = await self.rig.connect(self.dev, 2, gen.device_id(r), gen.device_key(r))
